@@ -15,11 +15,15 @@ FAKE_VERSION = "0.62.0"
 
 def import_dclab():
     os.environ.setdefault("PYTHONHASHSEED", "0")
-    if "/repo" not in sys.path:
-        sys.path.insert(0, "/repo")
+    # registered commands always use /repo; VERIF_REPO lets the developer
+    # point a check at a scratch worktree (seeded changes) without touching it
+    repo = os.environ.get("VERIF_REPO", "/repo").rstrip("/")
+    if repo not in sys.path:
+        sys.path.insert(0, repo)
     warnings.filterwarnings("ignore")
     import dclab
-    if not os.path.realpath(dclab.__file__).startswith("/repo/"):
+    if not os.path.realpath(dclab.__file__).startswith(
+            os.path.realpath(repo) + "/"):
         raise RuntimeError("dclab is not imported from /repo: %s"
                            % dclab.__file__)
     for name in ["dclab", "dclab._version", "dclab.rtdc_dataset.writer",
